@@ -83,8 +83,11 @@ let register () =
         let acts = if acts = "-" then [] else Stdlib.List.map parse_action (String.split_on_char ';' acts) in
         join (Stdlib.List.map show_tsout (RemuxTsFilter.run_scripted sc acts))
       | _ -> "bad-args");
-  Registry.register "c06.rtsp" (function
+  let rtsp_op run = (function
       | [ins] ->
         let ins = if ins = "-" then [] else Stdlib.List.map parse_rin (String.split_on_char ';' ins) in
-        join (Stdlib.List.map show_rout (RemuxRtmp2Rtp.run_rtsp b64_enc hex_enc tool ins))
-      | _ -> "bad-args")
+        join (Stdlib.List.map show_rout (run b64_enc hex_enc tool ins))
+      | _ -> "bad-args") in
+  Registry.register "c06.rtsp" (rtsp_op RemuxRtmp2Rtp.run_rtsp);
+  (* the pinned tree (Opus packer at the metadata rate); model side only *)
+  Registry.register "c06.rtsp_pinned" (rtsp_op RemuxRtmp2Rtp.run_rtsp_pinned)
